@@ -69,7 +69,7 @@ def variants(c, rng, tier):
         for t in pick:
             out.append(("hints", dict(c, hints=t)))
     # 5. supercells: every occurrence once per image
-    for r in ([(1, 1, 2)] if tier == "quick" else [(1, 1, 2), (2, 1, 3), (2, 2, 2)]):
+    for r in ([(1, 1, 2), (2, 1, 1)] if tier == "quick" else [(1, 1, 2), (2, 1, 3), (2, 2, 2)]):
         if n * r[0] * r[1] * r[2] <= 36:
             from mofun import Atoms
             S, _ = FG.atoms_of(c)
@@ -185,7 +185,7 @@ def main(tier, seed, replay=None):
     return run.finish(
         rule="base planted problems (mixed / corner / antiparallel flavors) each re-run under: common shift by a grid vector + wrap, atom "
              "permutation, rigid motion of the pattern (exact rational rotation, re-gridded) + translation, valid hint triples incl. index 0, "
-             "3 (thorough: 20) RNG seeds, supercells (1,1,2) (thorough also (2,1,3), (2,2,2)).  Every run is a FindCorr case whose expected "
+             "3 (thorough: 20) RNG seeds, supercells (1,1,2), (2,1,1) (thorough also (2,1,3), (2,2,2)).  Every run is a FindCorr case whose expected "
              "groups are the planted ones after the obvious renaming, so invariance = `reported = expected` for every representation; each is "
              "also run on the Coq model.  Thorough adds implementation-vs-implementation runs on the repository's MOF files (a test).  "
              "Non-trivial = a transformed representation with >= 1 match.",
